@@ -31,6 +31,7 @@ RULE = (
 ASSUMPTIONS = [
     "ideal networks (props/_ideal.py) in place of trained weights; frames reach the consumer through a pre-filled frame buffer (the reader side is C13's subject)",
     "frame alphabet: 0,1,2,3 animals; frames 0,1 are 2/3 the size of frames 2,3 and size matching brings them to the same network input, so eff_scale differs between batch-mates; video_idx 0 for frames 0,2 and 1 for frames 1,3",
+    "tiny bottom-up family (32x48 frames, PAF stride 8 -> 4x6x4 PAF grid, edges longer than max_edge_length_ratio x image size so the distance penalty is active): every ordered selection from a 2-frame alphabet as one batch of 7 (quick) / 5..9 (thorough) frames - batches larger than every PAF-grid axis",
     "B = 3 (quick) / 4 (thorough); every selection of B >= 2 frames is additionally run as consecutive batches of size B-1 through the same predictor / inference-model instance (batch-size independence and state carried between batches)",
 ]
 
@@ -52,8 +53,39 @@ def animal_in(cx, cy, a, variant):
     return np.array(pts, dtype=np.float64)
 
 
-def make_frames(model):
+TINY_H, TINY_W = 32, 48  # "tiny" family: PAF grid 4x6 at stride 8, smaller than the batches it is run in
+
+
+def dims(cfg):
+    return (TINY_H, TINY_W) if cfg.get("tiny") else (IN_H, IN_W)
+
+
+def make_tiny_frames():
+    """Tiny family: frame 0 empty, frames 1..3 hold one animal (three poses / places) whose edges (14.4 px) are longer
+    than max_edge_length_ratio x image size (12 px), so the PAF distance penalty is active."""
+    a = 0.30 * CROP
+    frames = []
+    for k in range(4):
+        animals = []
+        if k:
+            cx, cy = (20.0, 11.0) if k == 1 else ((24.0, 13.0) if k == 2 else (18.0, 12.0))
+            pin = animal_in(cx, cy, a, [0, 0, 2, 0][k])
+            animals.append(np.array([[gp(x, 2 * i + k), gp(y, 2 * i + 1 + k)] for i, (x, y) in enumerate(pin)]))
+        img = S.render(TINY_H, TINY_W, animals, radius=a / 3.8)
+        item = {
+            "image": torch.from_numpy(np.ascontiguousarray(np.transpose(img, (2, 0, 1))[None])),
+            "frame_idx": torch.tensor(10 + k, dtype=torch.int32),
+            "video_idx": torch.tensor(k % 2, dtype=torch.int32),
+            "orig_size": torch.Tensor([TINY_H, TINY_W]),
+        }
+        frames.append({"item": item, "animals": animals, "hw": (TINY_H, TINY_W)})
+    return frames, a
+
+
+def make_frames(model, tiny=False):
     """4 frames: k animals in frame k (single: 0/1 animal).  Returns list of dicts with the queue item and truth."""
+    if tiny:
+        return make_tiny_frames()
     a = 0.30 * CROP
     r_in = a / 3.8
     frames = []
@@ -106,11 +138,14 @@ def make_predictor(cfg, batch, a):
         p = I.topdown_predictor(3, 0, 1.0, 1.0, 16, 16, 2, 2, 1.5, CROP, (IN_H, IN_W), ref, batch, sk, max_instances=mi)
         p.inference_model.centroid_crop.torch_model.link = 2.6 * a
         pc = {"scale": 1.0, "max_stride": 16}
+    elif cfg.get("tiny"):
+        p = I.bottomup_predictor(3, [(0, 1), (0, 2)], 1.0, 16, 2, 8, 1.5, 10.0, 2.6 * a, (TINY_H, TINY_W), ref, batch, sk, max_instances=mi)
+        pc = {"scale": 1.0, "max_stride": 16}
     else:
         p = I.bottomup_predictor(3, [(0, 1), (0, 2)], 1.0, 16, 2, 4, 1.5, 10.0, 2.6 * a, (IN_H, IN_W), ref, batch, sk, max_instances=mi)
         pc = {"scale": 1.0, "max_stride": 16}
     p.preprocess = True
-    p.preprocess_config = {"batch_size": batch, "scale": pc["scale"], "is_rgb": False, "max_stride": pc["max_stride"], "max_height": IN_H, "max_width": IN_W}
+    p.preprocess_config = {"batch_size": batch, "scale": pc["scale"], "is_rgb": False, "max_stride": pc["max_stride"], "max_height": dims(cfg)[0], "max_width": dims(cfg)[1]}
     return p
 
 
@@ -180,6 +215,35 @@ def expected_alone(cfg, frames, a, k):
     if mi is not None and len(inst) > mi and cfg["model"] == "topdown":
         inst = sorted(sorted(inst, key=lambda t: -t[2])[:mi], key=repr)
     return inst
+
+
+def check_big(part, cfg, sizes, first, alphabet=(1, 2)):
+    """Tiny family: every ordered selection from `alphabet` as ONE batch of size b for b in sizes - batches that hold
+    more frames than the PAF grid has rows, columns or channels (a per-batch quantity taken over the wrong axis shows)."""
+    frames, a = make_frames(cfg["model"], True)
+    ck = core.digest(cfg)
+    alone = {k: expected_alone(cfg, frames, a, k) for k in range(4)}
+    for k in range(4):
+        if len(alone[k]) != len(frames[k]["animals"]):
+            part.count()
+            part.violation({"cfg": cfg, "batch": [k]}, f"alone-run of tiny frame {k} ({len(frames[k]['animals'])} animals) returns {len(alone[k])} instances")
+            return
+    for b in sizes:
+        for sel in itertools.product(alphabet, repeat=b):
+            if sel[0] != first:
+                continue  # jobs are split by first frame (load balance)
+            case = {"cfg": cfg, "batch": list(sel)}
+            part.count()
+            part.transition()
+            part.state(f"{ck}:{sel}")
+            if len(set(sel)) >= 2:
+                part.nontriv(f"{ck}:{sel}")
+            part.sample(case, len(set(sel)) >= 2)
+            err, occ = eval_batch(cfg, frames, a, alone, list(sel))
+            if occ is not None:
+                part.outcome(core.digest(occ))
+            if err:
+                part.violation(case, err)
 
 
 def check_cfg(part, cfg, bmax, only_b=None, only_first=None):
@@ -334,6 +398,8 @@ def work(part, shard):
     for cfg, bmax, kind, b, first in shard:
         if kind == "labels":
             check_labels_topk(part, cfg)
+        elif kind == "big":
+            check_big(part, cfg, b, first)
         else:
             check_cfg(part, cfg, bmax, b, first)
 
@@ -347,7 +413,14 @@ def run(ctx):
             for first in ([None] if b < 3 else range(4)):  # the big batch sizes are split by first frame (load balance)
                 jobs.append((c, bmax, "batch", b, first))
     jobs += [(c, 2, "labels", None, None) for c in configs() if c["model"] == "bottomup" and c["max_instances"] is not None]
-    ctx.bounds = {"max_batch": bmax, "configs": len(configs()), "batches_per_config": sum(4**b for b in range(1, bmax + 1))}
+    # tiny family (32x48 frames, 4x6 PAF grid): batches larger than the PAF grid
+    big_sizes = [7] if ctx.tier == "quick" else [5, 6, 7, 8, 9]
+    for ref in (None, "integral"):
+        c = {"model": "bottomup", "refinement": ref, "max_instances": None, "tiny": True}
+        for bsz in big_sizes:
+            for f0 in (1, 2):
+                jobs.append((c, bsz, "big", [bsz], f0))
+    ctx.bounds = {"tiny_family_batch_sizes": big_sizes, "max_batch": bmax, "configs": len(configs()), "batches_per_config": sum(4**b for b in range(1, bmax + 1))}
     jobs = core.rotate(jobs, ctx.seed)
     core.pmap(ctx, work, [[j] for j in jobs])
 
@@ -362,7 +435,7 @@ def replay(case):
     if case.get("labels"):
         check_labels_topk(part, cfg)
     else:
-        frames, a = make_frames(cfg["model"])
+        frames, a = make_frames(cfg["model"], bool(cfg.get("tiny")))
         sel = case["batch"]
         alone = {k: expected_alone(cfg, frames, a, k) for k in range(4)}
         err, occ = eval_batch(cfg, frames, a, alone, sel, case.get("batch_size"))
